@@ -606,6 +606,7 @@ func main() {
 	writeFile("NodeGlue.lean", genNodeGlue(facts))
 	writeFile("Board.lean", genBoard(facts))
 	writeFile("AirGlue.lean", genAirGlue(facts))
+	writeFile("AirDkgOrder.lean", genAirDkgOrder(facts))
 	writeFile("RoundLock.lean", genRoundLock(facts))
 	writeFile("MoreFacts.lean", genMoreFacts(facts))
 	writeFile("SeedFacts.lean", genSeedFacts(facts))
